@@ -28,6 +28,8 @@ PATTERNS = [
     ("sudo_opt_array", [("sudo", "arg", "Option<[{P}; 2]>")]),
     # only in the error half of a query's result: not part of the message, so not a parameter of it
     ("query_err_only", [("query", "err", "{P}")]),
+    # a concrete type reached through a path whose last segment is spelled like the parameter: not a use of the parameter
+    ("exec_qualified_lookalike", [("exec", "lookalike", "other::{P}")]),
 ]
 
 PNAMES = ["TA", "TB", "TD"]   # single letters are C19's subject (some collide with helper parameters)
@@ -57,9 +59,11 @@ def build_contract(params, pats, wheres, interface=False):
         for (kind, slot, ty) in uses:
             t = ty.replace("{P}", ("Self::" + p) if interface else p)
             cnt += 1
-            if p not in used[kind] and slot != "err":
+            if p not in used[kind] and slot not in ("err", "lookalike"):
                 used[kind].append(p)
-            if slot == "arg":
+            if slot == "lookalike":
+                methods[kind].append(("arg", "x%d" % cnt, ty.replace("{P}", p)))
+            elif slot == "arg":
                 methods[kind].append(("arg", "x%d" % cnt, t))
             elif slot == "err":
                 methods[kind].append(("err", None, t))
@@ -231,7 +235,7 @@ def e2_programs(tier):
     ]
     if tier == "thorough":
         k = 7
-        for pats in itertools.product(PATTERNS[:10] + PATTERNS[12:15], repeat=2):
+        for pats in itertools.product(PATTERNS[:10] + PATTERNS[12:15], repeat=2):   # the last two patterns name types that exist only for E1
             combos.append(("pg%d" % k, ["TA", "TB"], list(pats), ["TA: Clone"], {"TA": "u32", "TB": "String"}))
             k += 1
     BOUNDS = "sylvia::serde::Serialize + sylvia::serde::de::DeserializeOwned + std::fmt::Debug + Clone + PartialEq + sylvia::schemars::JsonSchema + 'static"
